@@ -85,8 +85,18 @@ def gen_pipe_case(rng):
     target_only = rng.choice(["True", "False"])
     ncand_max = ncol * (ncol + 1) // 2 + ncol
     caps = [rng.randint(0, ncand_max + 2) for _ in range(rng.randint(1, 8))]
-    return {"columns": names, "label": label, "heuristic": mode, "target_only": target_only, "caps": caps,
+    case = {"columns": names, "label": label, "heuristic": mode, "target_only": target_only, "caps": caps,
             "nrows": 12, "seed": rng.randint(0, 10 ** 6)}
+    if rng.random() < 0.25:
+        # prior heuristic with a reference model (rarely used configuration): some columns are reference-model features
+        case["heuristic"] = rng.choice(["surrogate-SGD", "surrogate-SVM", "surrogate-SGD-RP"])
+        others = [n for n in names if n != label and " AND_REL " not in n]
+        ref = rng.sample(others, min(len(others), rng.randint(1, 2))) if others else []
+        if len(ref) == 2 and rng.random() < 0.5:
+            ref.append(",".join(ref))
+        case["reference"] = ref
+        case["caps"] = [rng.randint(1, 4) for _ in range(rng.randint(2, 8))]
+    return case
 
 
 def pipe_encode(case, res):
